@@ -16,6 +16,7 @@
 // proposer tokens (tdacc/xpacc): k = k-th validator of the list in force, 50+k = k-th validator of the
 // list NOT in force (xpacc mode 2), 99 = outsider, -1 = empty proposer field.
 // tdacc hmode: 0 = block at height 2 (init validators), 1 = block at height 5 on a 5-block ledger (ledger path).
+// xpacc mode 3: as mode 2, the contract snapshot holding nvals+1 validators (the node's in-memory list holds nvals).
 // xpacc mode: 0 = validator set unavailable (height far above the tip), 1 = height 2 (init validators),
 // 2 = height 5, validators taken from the contract snapshot.
 package main
@@ -353,7 +354,7 @@ func xpoaInst(period, bn int64, nvals int, mode int) (base.ConsensusImplInterfac
 	}
 	l := newStubLedger()
 	blocks := 2
-	if mode == 2 {
+	if mode >= 2 {
 		blocks = 5
 	}
 	for h := 0; h < blocks; h++ {
@@ -369,10 +370,11 @@ func xpoaInst(period, bn int64, nvals int, mode int) (base.ConsensusImplInterfac
 	if inst == nil {
 		panic("NewXpoaConsensus returned nil for " + string(js))
 	}
-	if mode == 2 {
-		// the validator set written by the $poa contract, visible in every snapshot
+	if mode >= 2 {
+		// the validator set written by the $poa contract, visible in every snapshot; mode 3: it has one member more
+		// than the initial set (which is what the node holds in memory until its next CompeteMaster)
 		var alt []string
-		for i := 0; i < nvals; i++ {
+		for i := 0; i < nvals+mode-2; i++ {
 			alt = append(alt, acct(altBase+i).Address)
 		}
 		v, _ := json.Marshal(map[string][]string{"address": alt})
@@ -572,15 +574,21 @@ func execXpAcc(line string, w []string) string {
 		height = 40 // far above the tip: block height-4 is not in the ledger, the validator set cannot be computed
 	case 2:
 		height, inForce, other = 5, altBase, 0
+	case 3:
+		height, inForce, other = 5, altBase, 0
+	}
+	nForce := nvals
+	if mode == 3 {
+		nForce = nvals + 1
 	}
 	addr, id := proposerAddr(prop, inForce, other)
 	tip := l.chain[len(l.chain)-1]
 	b := &blk{proposer: addr, height: height, id: []byte{0xD, 0xD}, pre: tip.id, storage: []byte("{}"), ts: ts}
 	ok, _ := inst.CheckMinerMatch(bctx, b)
 	if ok {
-		want := xpSpec(period, bn, ts, nvals)
+		want := xpSpec(period, bn, ts, nForce)
 		switch {
-		case mode == 0 || nvals == 0:
+		case mode == 0 || nForce == 0:
 			out.Violate(xvlib.Violation{Key: "xpoa-accept-no-validators", What: fmt.Sprintf("xpoa CheckMinerMatch accepted a block (proposer %q) although no validator set can be computed for it, so nobody is entitled", addr),
 				Ops: []string{line}, Impl: []string{"accept"}})
 		case id < 0 || id-inForce != int(want[1]):
@@ -985,6 +993,25 @@ func main() {
 						for _, p := range props {
 							run(fmt.Sprintf("xpacc %d %d %d %d %d %d", period, bn, n, mode, ts, p), true)
 						}
+					}
+				}
+			}
+		}
+	}
+	// the set in force (contract snapshot, n+1 members) differs in size from the set the node holds in memory (n)
+	for _, period := range accPeriods {
+		for bn := int64(1); bn <= 3; bn++ {
+			for n := 1; n <= 3; n++ {
+				tt := period * bn * int64(n+1)
+				base := int64(1559021720000) / tt * tt
+				bs := boundaries(func(T int64) [3]int64 { return xpReal(period, bn, T*1000000, n+1) }, base, base+2*tt+2)
+				for _, T := range bs {
+					props := []int64{99, -1, int64(n)}
+					for k := 0; k < n; k++ {
+						props = append(props, int64(k), int64(50+k))
+					}
+					for _, p := range props {
+						run(fmt.Sprintf("xpacc %d %d %d 3 %d %d", period, bn, n, T*1000000, p), true)
 					}
 				}
 			}
